@@ -1453,10 +1453,10 @@ def histogramdd(sample, bins, range=None, normed=None, weights=None, density=Non
     if weights is not None:
         w_keys = flatten(weights.__dask_keys__())
         deps += (weights,)
-        dtype = weights.dtype
     else:
         w_keys = (None,) * n_chunks
-        dtype = np.histogramdd([])[0].dtype
+    # np.histogramdd returns float64 with and without weights
+    dtype = np.histogramdd([])[0].dtype
 
     # This tuple of zeros represents the chunk index along the columns
     # (we only allow chunking along the rows).
